@@ -93,6 +93,9 @@ impl Scalar for f32 {
     fn float_op(p: &mut Polygon<f32>, k: u8) {
         float_op_impl(p, k)
     }
+    fn derive(p: &Polygon<f32>, k: u8) -> (Vec<Polygon<f32>>, Vec<Rect<f32>>) {
+        derive_f32(p, k)
+    }
 }
 impl Scalar for i32 {
     const NAME: &'static str = "i32";
@@ -127,37 +130,105 @@ impl Scalar for i64 {
     }
 }
 
-fn derive_f64(p: &Polygon<f64>, k: u8) -> (Vec<Polygon<f64>>, Vec<Rect<f64>>) {
-    use geo::algorithm::bool_ops::BooleanOps;
-    use geo::algorithm::orient::Direction;
-    use geo::algorithm::{BoundingRect, ChaikinSmoothing, ConvexHull, Orient, Simplify, SimplifyVwPreserve};
-    let mut ps = vec![];
-    let mut rs = vec![];
-    match k % 9 {
-        0 => ps.push(p.orient(Direction::Default)),
-        1 => ps.push(p.orient(Direction::Reversed)),
-        2 => ps.push(p.simplify(0.3)),
-        3 => ps.push(p.simplify_vw_preserve(0.3)),
-        4 => ps.push(p.convex_hull()),
-        5 => ps.push(p.chaikin_smoothing(1)),
-        6 => ps.push(geo::algorithm::RemoveRepeatedPoints::remove_repeated_points(p)),
-        7 => {
-            // only for short rings: the overlay of arbitrary invalid input is kept tiny
-            if p.exterior().0.len() <= 12 && p.interiors().iter().all(|r| r.0.len() <= 12) {
-                let shifted = geo::algorithm::Translate::translate(p, 0.5, 0.25);
-                ps.extend(p.union(&shifted).0);
-                ps.extend(p.difference(&shifted).0.into_iter().take(3));
+macro_rules! derive_impl {
+    ($name:ident, $t:ty) => {
+        fn $name(p: &Polygon<$t>, k: u8) -> (Vec<Polygon<$t>>, Vec<Rect<$t>>) {
+            use geo::algorithm::bool_ops::BooleanOps;
+            use geo::algorithm::line_measures::{Densify, Euclidean};
+            use geo::algorithm::orient::Direction;
+            use geo::algorithm::{BoundingRect, ChaikinSmoothing, ConcaveHull, ConvexHull, MinimumRotatedRect, Orient, Simplify, SimplifyVw, SimplifyVwPreserve, Winding};
+            let mut ps: Vec<Polygon<$t>> = vec![];
+            let mut rs: Vec<Rect<$t>> = vec![];
+            let short = p.exterior().0.len() <= 12 && p.interiors().iter().all(|r| r.0.len() <= 12) && p.interiors().len() <= 4;
+            // small extent: work proportional to lengths (densify) stays bounded
+            let compact = p.exterior().0.iter().chain(p.interiors().iter().flat_map(|r| r.0.iter())).all(|c| c.x.abs() <= 64.0 && c.y.abs() <= 64.0);
+            match k % 18 {
+                0 => ps.push(p.orient(Direction::Default)),
+                1 => ps.push(p.orient(Direction::Reversed)),
+                2 => ps.push(p.simplify(0.3)),
+                3 => ps.push(p.simplify_vw_preserve(0.3)),
+                4 => ps.push(p.convex_hull()),
+                5 => ps.push(p.chaikin_smoothing(1)),
+                6 => ps.push(geo::algorithm::RemoveRepeatedPoints::remove_repeated_points(p)),
+                7 => {
+                    // only for short rings: the overlay of arbitrary invalid input is kept tiny
+                    if short {
+                        let shifted = geo::algorithm::Translate::translate(p, 0.5, 0.25);
+                        ps.extend(p.union(&shifted).0);
+                        ps.extend(p.difference(&shifted).0.into_iter().take(3));
+                        ps.extend(p.intersection(&shifted).0.into_iter().take(3));
+                        ps.extend(p.xor(&shifted).0.into_iter().take(3));
+                    }
+                }
+                8 => {
+                    if let Some(r) = p.bounding_rect() {
+                        rs.push(r);
+                        ps.push(r.to_polygon());
+                    }
+                }
+                9 => ps.push(p.simplify_vw(0.3)),
+                10 => {
+                    if short && compact {
+                        ps.push(Euclidean.densify(p, 0.7))
+                    }
+                }
+                11 => {
+                    if let Some(m) = p.minimum_rotated_rect() {
+                        ps.push(m);
+                    }
+                }
+                12 => {
+                    if short {
+                        ps.push(p.concave_hull(2.0))
+                    }
+                }
+                13 => {
+                    // Rects handed out for other geometry types built from the same coordinates
+                    if let Some(r) = p.exterior().bounding_rect() {
+                        rs.push(r);
+                    }
+                    if let [a, b, c, ..] = p.exterior().0[..] {
+                        rs.push(geo_types::Line::new(a, b).bounding_rect());
+                        rs.push(Triangle::new(a, b, c).bounding_rect());
+                        let mp = MultiPoint::new(p.exterior().0.iter().map(|c| Point(*c)).collect());
+                        if let Some(r) = mp.bounding_rect() {
+                            rs.push(r);
+                        }
+                        let g: Geometry<$t> = p.clone().into();
+                        if let Some(r) = g.bounding_rect() {
+                            rs.push(r);
+                        }
+                    }
+                }
+                14 => {
+                    let mut q = p.clone();
+                    q.exterior_mut(|e| e.make_cw_winding());
+                    q.interiors_mut(|is| is.iter_mut().for_each(|r| r.make_ccw_winding()));
+                    ps.push(q);
+                }
+                15 => {
+                    // (earcut is not called here: earcutr can loop forever on degenerate rings,
+                    // and C18's rings are arbitrary)
+                    let _ = short;
+                }
+                16 => {
+                    let mp = MultiPolygon::new(vec![p.clone(), geo::algorithm::Translate::translate(p, 1.0, 1.0)]);
+                    ps.extend(mp.orient(Direction::Default).0);
+                    ps.extend(mp.simplify(0.5).0);
+                    ps.push(mp.convex_hull());
+                }
+                _ => {
+                    if short {
+                        ps.extend(geo::algorithm::bool_ops::unary_union([p, &geo::algorithm::Translate::translate(p, 0.25, 0.0)]).0.into_iter().take(3));
+                    }
+                }
             }
+            (ps, rs)
         }
-        _ => {
-            if let Some(r) = p.bounding_rect() {
-                rs.push(r);
-                ps.push(r.to_polygon());
-            }
-        }
-    }
-    (ps, rs)
+    };
 }
+derive_impl!(derive_f64, f64);
+derive_impl!(derive_f32, f32);
 
 fn float_op_impl<T: geo::CoordFloat>(p: &mut Polygon<T>, k: u8) {
     let f = |v: f64| T::from(v).unwrap();
@@ -753,10 +824,14 @@ impl<T: Scalar> State<T> {
                     let kk = *k;
                     match std::panic::catch_unwind(std::panic::AssertUnwindSafe(|| T::derive(&src, kk))) {
                         Ok((ps, rs)) => {
-                            for p in ps.into_iter().take(3) {
+                            for p in ps.into_iter().take(6) {
+                                // judged at once (the pool only keeps the last few)
+                                Self::check_poly(&p, "polygon returned by a geo algorithm")?;
                                 self.add_poly(p);
                             }
                             for r in rs {
+                                // judged at once (the pool only keeps the last few)
+                                Self::check_rect(&r, "Rect returned by bounding_rect()")?;
                                 if self.rects.len() >= MAX_RECTS {
                                     self.rects.remove(0);
                                 }
@@ -1275,7 +1350,7 @@ pub fn gen_op(rng: &mut Rng) -> Op {
             if rng.chance(1, 2) {
                 Op::Orient { slot, k: rng.below(4) as u8 }
             } else {
-                Op::GeoDerive { slot, k: rng.below(9) as u8 }
+                Op::GeoDerive { slot, k: rng.below(18) as u8 }
             }
         }
         33 => {
